@@ -1289,7 +1289,8 @@ def c13(res, wd):
         core.log("[C13] CONFORMANCE-DRIFT in %d/%d sync-test sessions" % (drift, len(sel)))
     res.rule = ("MC_SyncTest.tla (SyncTest.tla = sync layer + checksum history + compare-then-roll-back) explored "
                 "exhaustively for 1-3 players, check distance 0..3, delay 0..1, all input sequences over {0,1} and the "
-                "glitch on the k-th simulation of a frame, with the monitor as invariant; real SyncTestSessions with "
+                "glitch on the k-th simulation of a frame, with the monitor as invariant; real SyncTestSessions (the glitch "
+                "either carried into later frames or transient: only the checksum of the next save differs) with "
                 "1-4 players, windows 2..12, every check distance below the window, delays 0..5, random inputs, and a "
                 "recording game that deviates on the k-th simulation of a random frame: the monitor demands no "
                 "MismatchedChecksum for the deterministic game, a report within check_distance+2 calls naming the "
@@ -1781,6 +1782,34 @@ def selftest(res, wd):
         results.append(("MC_Link with the pinned behaviour finds the wedge", True))
     except core.ToolError:
         results.append(("MC_Link with the pinned behaviour finds the wedge", False))
+    # 6. datagram layer: a record that claims a truncated datagram was accepted / a well-formed one dropped
+    import re
+    wrec = os.path.join(wd, "wire_self.ndjson")
+    core.sh([WIRE_BIN, wrec, "1", "50"], timeout=300)
+    with open(wrec) as f:
+        wl = [json.loads(x) for x in f]
+
+    def wire_bad(ls, name):
+        pth = write(name, ls)
+        rc, out = core.tlc(os.path.join(core.SPEC, "Trace_Wire.tla"), os.path.join(core.SPEC, "Trace_Wire.cfg"),
+                           os.path.join(wd, "md_" + name), env={"TRACE": pth}, timeout=600, xmx="3g")
+        m = re.search(r'<<"WIRE-RESULT", "(.*)">>', out)
+        return json.loads(m.group(1).encode().decode("unicode_escape"))["bad"] if m else -1
+
+    results.append(("untampered datagram records accepted by Trace_Wire", wire_bad(wl, "w0.ndjson") == 0))
+    w1 = json.loads(json.dumps(wl))
+    for r in w1:
+        if r["k"] == "rx" and r["res"] and len(r["data"]) == len(r["res"]) and len(r["data"]) > 8:
+            r["data"] = r["data"][:-1]          # the datagram was one byte shorter, yet "accepted"
+            break
+    results.append(("truncated datagram recorded as accepted is rejected", wire_bad(w1, "w1.ndjson") == 1))
+    w2 = json.loads(json.dumps(wl))
+    for r in w2:
+        if r["k"] == "rx" and r["res"] and len(r["data"]) == len(r["res"]):
+            r["res"] = []
+            r["n"] = 0                          # a well-formed datagram recorded as dropped
+            break
+    results.append(("well-formed datagram recorded as dropped is rejected", wire_bad(w2, "w2.ndjson") == 1))
     for name, good in results:
         print("%-70s %s" % (name, "ok" if good else "FAILED"))
     return 0 if all(g for _, g in results) else 2
